@@ -206,17 +206,21 @@ def part_formulas(ctx):
     from mitxgraders.helpers.calc.mathfuncs import DEFAULT_FUNCTIONS
     rng = ctx.rng
     asks, meta = [], []
-    lits = ['[1,2]', '[3,-1]', '[1,2,3]', '[[1,2],[3,4]]', '[[2,0],[0,4]]', '[[1,2],[2,4]]', '[[1,2,3],[4,5,6]]', '[[1],[2]]', '2', '0', 'A', 'v', '[i,1]', '[[1,i],[0,1]]']
+    lits = ['norm(v)', 'det(A)', 'trace(A)', 'sin(1)', 'abs(v)', 'norm([3,4])', '[1,2]', '[3,-1]', '[1,2,3]', '[[1,2],[3,4]]', '[[2,0],[0,4]]', '[[1,2],[2,4]]', '[[1,2,3],[4,5,6]]', '[[1],[2]]', '2', '0', 'A', 'v', '[i,1]', '[[1,i],[0,1]]']
     variables = {'A': MathArray([[1.0, 1.0], [0.0, 1.0]]), 'v': MathArray([2.0, -1.0]), 'i': 1j}
+    from mitxgraders.helpers.calc.mathfuncs import ARRAY_ONLY_FUNCTIONS, merge_dicts
+    FUN = merge_dicts(DEFAULT_FUNCTIONS, ARRAY_ONLY_FUNCTIONS)
+
     def lit_val(s):
-        return evaluator(s, variables, {}, {}, max_array_dim=2)[0]
+        from mitxgraders.helpers.calc.expressions import cast_np_numeric_as_builtin
+        return cast_np_numeric_as_builtin(evaluator(s, variables, FUN, {}, max_array_dim=2)[0])
     for it in range(ctx.scale(300, 5000)):
         n = rng.choice([2, 2, 3, 3, 4])
         terms = [rng.choice(lits) for _ in range(n)]
-        ops = [rng.choice(['*', '*', '/']) for _ in range(n - 1)] if rng.random() < 0.6 else [rng.choice(['+', '-', '*', '^']) for _ in range(n - 1)]
+        ops = [rng.choice(['*', '*', '/']) for _ in range(n - 1)] if rng.random() < 0.5 else [rng.choice(['+', '-', '*', '^', '/']) for _ in range(n - 1)]
         if set(ops) <= {'*', '/'}:
             expr = terms[0] + ''.join(' %s %s' % (o, t) for o, t in zip(ops, terms[1:]))
-            k, v = D.run_impl(lambda: evaluator(expr, variables, {}, {}, max_array_dim=2)[0])
+            k, v = D.run_impl(lambda: evaluator(expr, variables, FUN, {}, max_array_dim=2)[0])
             got = classify(k, v)
             vals = [lit_val(t) for t in terms]
             nvec = sum(1 for x in vals if is_arr(x) and x.ndim == 1)
@@ -229,10 +233,10 @@ def part_formulas(ctx):
         else:
             a, o, b = terms[0], ops[0], terms[1]
             expr = '%s %s %s' % (a, o, b)
-            k, v = D.run_impl(lambda: evaluator(expr, variables, {}, {}, max_array_dim=2)[0])
+            k, v = D.run_impl(lambda: evaluator(expr, variables, FUN, {}, max_array_dim=2)[0])
             got = classify(k, v)
             case = {'part': 'binary', 'expr': expr}
-            op = {'+': 'add', '-': 'sub', '*': 'mul', '^': 'pow'}[o]
+            op = {'+': 'add', '-': 'sub', '*': 'mul', '^': 'pow', '/': 'div'}[o]
             va, vb = lit_val(a), lit_val(b)
             oracle_check(ctx, op, va, vb, got, case)
             ctx.case({'expr': expr, 'outcome': got[0]}, nontrivial_key=('bin', expr), kind='binary:%s:%s' % (op, got[0]))
